@@ -370,4 +370,6 @@ def standard_initcodes():
         asm(["INVALID"]),
         asm([0, 0, "RETURN"]),  # empty runtime
         asm([1, 1, "SSTORE", 0, 0, "RETURN"]),
+        # the constructor looks at its call data: empty during a creation (size 0, loads and copies give zeros), never the init code
+        initcode_with_prologue(asm([0xFF, 0, "MSTORE", 32, 0, 0, "CALLDATACOPY", 0, "MLOAD", 1, "SSTORE", "CALLDATASIZE", 1, "ADD", 2, "SSTORE", 0, "CALLDATALOAD", 3, "SSTORE"]), rt2),
     ]
